@@ -190,18 +190,75 @@ impl<const N: usize, AL: Copy + 'static> PartialEq for TL<N, AL> {
 }
 impl<const N: usize, AL: Copy + 'static> Eq for TL<N, AL> {}
 
-pub const N_LAYOUTS: u64 = 19;
+/// Zero-sized element WITH drop glue: it has no identity, so constructions and drops are counted
+/// in the World (`zst_made` / `zst_dropped`); more drops than constructions is a double drop,
+/// fewer at the end of a case is a leak.
+pub struct ZT;
 
-pub const LAYOUT_NAMES: [&str; 19] = [
+impl LElem for ZT {
+    const SIZE: usize = 0;
+    const ALIGN: usize = 1;
+    const TRACKED: bool = true;
+    fn make(_id: u64) -> Self {
+        world::with(|w| w.zst_made += 1);
+        ZT
+    }
+    fn id(&self) -> u64 {
+        0
+    }
+    fn id_space() -> u64 {
+        1
+    }
+    fn verify(&self) -> bool {
+        true
+    }
+    fn name() -> String {
+        "tracked(0,1)".to_string()
+    }
+}
+impl Drop for ZT {
+    fn drop(&mut self) {
+        let over = world::with(|w| {
+            w.zst_dropped += 1;
+            w.zst_dropped > w.zst_made
+        });
+        if over {
+            world::violation("C03", "double-drop", "a zero-sized element was dropped more often than elements were constructed".to_string());
+        }
+        world::callback(Class::DropK);
+    }
+}
+impl Clone for ZT {
+    fn clone(&self) -> Self {
+        world::callback(Class::CloneK);
+        Self::make(0)
+    }
+}
+impl Hash for ZT {
+    fn hash<H: Hasher>(&self, h: &mut H) {
+        h.write_u64(0);
+    }
+}
+impl PartialEq for ZT {
+    fn eq(&self, _o: &Self) -> bool {
+        world::callback(Class::Eq);
+        true
+    }
+}
+impl Eq for ZT {}
+
+pub const N_LAYOUTS: u64 = 20;
+
+pub const LAYOUT_NAMES: [&str; 20] = [
     "plain(0,1)", "plain(0,64)", "plain(1,1)", "plain(2,1)", "plain(2,2)", "plain(3,1)", "plain(8,1)", "plain(8,8)",
     "plain(16,16)", "plain(24,1)", "plain(24,8)", "plain(32,32)", "plain(64,64)", "plain(200,8)", "tracked(16,16)",
-    "tracked(24,8)", "tracked(32,32)", "tracked(64,64)", "tracked(200,8)",
+    "tracked(24,8)", "tracked(32,32)", "tracked(64,64)", "tracked(200,8)", "tracked(0,1)",
 ];
 
 /// `(size, align)` of layout `i`.
-pub const LAYOUT_DIMS: [(usize, usize); 19] = [
+pub const LAYOUT_DIMS: [(usize, usize); 20] = [
     (0, 1), (0, 64), (1, 1), (2, 1), (2, 2), (3, 1), (8, 1), (8, 8), (16, 16), (24, 1), (24, 8), (32, 32), (64, 64),
-    (200, 8), (16, 16), (24, 8), (32, 32), (64, 64), (200, 8),
+    (200, 8), (16, 16), (24, 8), (32, 32), (64, 64), (200, 8), (0, 1),
 ];
 
 /// Dispatch a generic function over the layout family.
@@ -228,7 +285,8 @@ macro_rules! with_layout {
             15 => $f::<TL<24, A8>>($($arg),*),
             16 => $f::<TL<32, A32>>($($arg),*),
             17 => $f::<TL<64, A64>>($($arg),*),
-            _ => $f::<TL<200, A8>>($($arg),*),
+            18 => $f::<TL<200, A8>>($($arg),*),
+            _ => $f::<ZT>($($arg),*),
         }
     }};
 }
